@@ -130,7 +130,11 @@ func C18(c *core.Ctx) error {
 		c.Ev.Distinct("states", id)
 		rel, _ := filepath.Rel(root, target)
 		replay := map[string]any{"case": id, "cmd": cmd, "target": rel, "exit": r.Exit, "stderr": firstN(r.Stderr, 400)}
-		if r.Panicked() || r.TimedOut {
+		if core.ResourceFailure(r) {
+			c.Skip("%s: run timed out or was killed", id)
+			return
+		}
+		if r.Panicked() {
 			c.Report("crash:"+id, "init crashed: "+firstN(r.Stderr, 600), replay)
 			return
 		}
